@@ -18,7 +18,7 @@ namespace Vsgm
 
 /-- number of `_fix_violation` calls of one `Rule.fix` on the list `f` -/
 def ruleFixCalls (r : RuleCfg) (sem : RuleSem) (fo : Option FixOnly) (f : List Tok) : Nat :=
-  if r.fixable then (filterFixOnly fo r.id (sem.analyze f)).length else 0
+  if r.fixable then (filterFixOnly fo r.id (sortByStart (sem.analyze f))).length else 0
 
 /-- number of `_fix_violation` calls of one step of `rule_list.fix` -/
 def stepCalls (fo : Option FixOnly) (f : List Tok) (o : Option Rule) : Nat :=
